@@ -439,9 +439,9 @@ Proof.
   unfold close_sub in Cb. rewrite C in Cb. inversion Cb; subst; cbn. rewrite K. auto.
 Qed.
 
-Lemma valid_after_end_no_end : forall a b w, valid_from w true (a ++ EndWatch :: b) = false.
+Lemma valid_after_end_no_end : forall a b w f, valid_from w true (a ++ EndWatch f :: b) = false.
 Proof.
-  induction a as [| e r IH]; intros b w; cbn.
+  induction a as [| e r IH]; intros b w f; cbn.
   - destruct w; reflexivity.
   - destruct e; auto; destruct w; reflexivity.
 Qed.
@@ -491,43 +491,48 @@ Lemma open_drain : forall ss j n, all_open ss -> all_open (upd_nth j (drain_sub 
 Proof. intros. apply upd_nth_Forall; auto. Qed.
 
 (* a valid history whose first (hence only) EndWatch sits after [pre] *)
-Lemma close_lemma : forall pre post st,
+Ltac close_fin C I :=
+  split; [exact C | first [exact I | apply in_or_app; right; exact I | right; exact I]].
+
+Lemma close_lemma : forall pre post f st,
   ended st = false -> all_open (subs st) ->
-  valid_from (watching st) false (pre ++ EndWatch :: post) = true ->
-  exists outs st', run st (pre ++ EndWatch :: post) = (outs, Some st') /\
-    closed_upto (length (subs st) + count_subscribe pre) (subs st').
+  valid_from (watching st) false (pre ++ EndWatch f :: post) = true ->
+  exists outs st', run st (pre ++ EndWatch f :: post) = (outs, Some st') /\
+    closed_upto (length (subs st) + count_subscribe pre) (subs st') /\
+    In (OEnd f) outs.      (* Watch returns what the watch function returned *)
 Proof.
-  induction pre as [| e r IH]; intros post st E O V.
+  induction pre as [| e r IH]; intros post f st E O V.
   - cbn [app] in *. cbn in V. apply andb_prop in V. destruct V as [V1 V2].
     apply andb_prop in V1. destruct V1 as [W _]. rewrite W in V2.
     rewrite run_cons. cbn [step]. rewrite W, E. cbn [negb andb].
     destruct (close_all_open (subs st) O) as [ss [M [C L]]]. rewrite M.
     destruct (after_end post (mkSt ss true true) (length (subs st))) as [os [st' [R [C' _]]]]; auto; cbn [subs]; try lia.
-    rewrite R. eexists _, st'. split; [reflexivity |]. unfold count_subscribe; cbn. rewrite Nat.add_0_r. exact C'.
+    rewrite R. eexists _, st'. split; [reflexivity |]. unfold count_subscribe; cbn. rewrite Nat.add_0_r.
+    split; [exact C' | left; reflexivity].
   - rewrite <- app_comm_cons in *. rewrite run_cons.
-    destruct e as [iface mask | | changed | j n |]; cbn in V.
+    destruct e as [iface mask | | changed | j n | f']; cbn in V.
     + cbn [step].
-      destruct (IH post (mkSt (subs st ++ [mkSub iface mask [] false [] 0]) (watching st) (ended st))) as [os [st' [R C]]];
+      destruct (IH post f (mkSt (subs st ++ [mkSub iface mask [] false [] 0]) (watching st) (ended st))) as [os [st' [R [C I]]]];
         auto; cbn [subs].
       * unfold all_open. apply Forall_app. split; [exact O | repeat constructor].
       * rewrite R. eexists _, st'. split; [reflexivity |].
         cbn [subs] in C. rewrite app_length in C. unfold count_subscribe in *; cbn in *.
         replace (length (subs st) + S (length (filter _ r))) with (length (subs st) + 1 + length (filter (fun e => match e with Subscribe _ _ => true | _ => false end) r)) by lia.
-        exact C.
+        close_fin C I.
     + cbn [step]. destruct (watching st) eqn:W.
-      * destruct (IH post st E O) as [os [st' [R C]]]; [rewrite W; exact V |].
-        rewrite R. eexists _, st'. split; [reflexivity |]. exact C.
-      * destruct (IH post (mkSt (subs st) true (ended st)) E O) as [os [st' [R C]]]; [exact V |].
-        rewrite R. eexists _, st'. split; [reflexivity |]. exact C.
+      * destruct (IH post f st E O) as [os [st' [R [C I]]]]; [rewrite W; exact V |].
+        rewrite R. eexists _, st'. split; [reflexivity |]. close_fin C I.
+      * destruct (IH post f (mkSt (subs st) true (ended st)) E O) as [os [st' [R [C I]]]]; [exact V |].
+        rewrite R. eexists _, st'. split; [reflexivity |]. close_fin C I.
     + apply andb_prop in V. destruct V as [_ V]. cbn [step].
       destruct (notify_open changed (subs st) O) as [ss [M [O' L]]]. rewrite M.
-      destruct (IH post (mkSt ss (watching st) (ended st))) as [os [st' [R C]]]; auto.
-      rewrite R. eexists _, st'. split; [reflexivity |]. cbn [subs] in C. rewrite L in C. exact C.
+      destruct (IH post f (mkSt ss (watching st) (ended st))) as [os [st' [R [C I]]]]; auto.
+      rewrite R. eexists _, st'. split; [reflexivity |]. cbn [subs] in C. rewrite L in C. close_fin C I.
     + cbn [step]. destruct (nth_error (subs st) j) as [sj|] eqn:Nj.
-      * destruct (IH post (mkSt (upd_nth j (drain_sub n) (subs st)) (watching st) (ended st))) as [os [st' [R C]]]; auto.
+      * destruct (IH post f (mkSt (upd_nth j (drain_sub n) (subs st)) (watching st) (ended st))) as [os [st' [R [C I]]]]; auto.
         { apply open_drain; assumption. }
-        rewrite R. eexists _, st'. split; [reflexivity |]. cbn [subs] in C. rewrite upd_nth_length in C. exact C.
-      * destruct (IH post st E O V) as [os [st' [R C]]]. rewrite R. eexists _, st'. split; [reflexivity |]. exact C.
+        rewrite R. eexists _, st'. split; [reflexivity |]. cbn [subs] in C. rewrite upd_nth_length in C. close_fin C I.
+      * destruct (IH post f st E O V) as [os [st' [R [C I]]]]. rewrite R. eexists _, st'. split; [reflexivity |]. close_fin C I.
     + apply andb_prop in V. destruct V as [_ V]. rewrite valid_after_end_no_end in V. discriminate.
 Qed.
 
@@ -535,14 +540,14 @@ Qed.
 Lemma no_end_lemma : forall evs st,
   ended st = false -> all_open (subs st) ->
   valid_from (watching st) false evs = true ->
-  (forall e, In e evs -> e <> EndWatch) ->
+  (forall e f, In e evs -> e <> EndWatch f) ->
   exists outs st', run st evs = (outs, Some st') /\ all_open (subs st') /\ ended st' = false.
 Proof.
   induction evs as [| e r IH]; intros st E O V NE.
   - exists [], st; cbn; auto.
   - rewrite run_cons.
-    assert (forall e, In e r -> e <> EndWatch) as NE' by (intros; apply NE; right; assumption).
-    destruct e as [iface mask | | changed | j n |]; cbn in V.
+    assert (forall e f, In e r -> e <> EndWatch f) as NE' by (intros; apply NE; right; assumption).
+    destruct e as [iface mask | | changed | j n | f']; cbn in V.
     + cbn [step].
       destruct (IH (mkSt (subs st ++ [mkSub iface mask [] false [] 0]) (watching st) (ended st))) as [os [st' [R C]]]; auto.
       { cbn [subs]. unfold all_open. apply Forall_app. split; [exact O | repeat constructor]. }
@@ -561,55 +566,58 @@ Proof.
         { apply open_drain; assumption. }
         rewrite R. eexists _, st'. split; [reflexivity | exact C].
       * destruct (IH st E O V NE') as [os [st' [R C]]]. rewrite R. eexists _, st'. split; [reflexivity | exact C].
-    + exfalso. apply (NE EndWatch); [left; reflexivity | reflexivity].
+    + exfalso. apply (NE (EndWatch f') f'); [left; reflexivity | reflexivity].
 Qed.
 
 Lemma split_first_end : forall evs,
-  (forall e, In e evs -> e <> EndWatch) \/
-  exists pre post, evs = pre ++ EndWatch :: post /\ (forall e, In e pre -> e <> EndWatch).
+  (forall e f, In e evs -> e <> EndWatch f) \/
+  exists pre post f, evs = pre ++ EndWatch f :: post /\ (forall e f', In e pre -> e <> EndWatch f').
 Proof.
   induction evs as [| e r IH].
-  - left. intros e [].
-  - destruct e; try (destruct IH as [N | [pre [post [Eq N]]]];
-      [left; intros x [<- | Hx]; [discriminate | auto]
-      | right; eexists (_ :: pre), post; split; [rewrite Eq; reflexivity | intros x [<- | Hx]; [discriminate | auto]]]).
-    right. exists [], r. split; [reflexivity | intros x []].
+  - left. intros e f [].
+  - destruct e; try (destruct IH as [N | [pre [post [f [Eq N]]]]];
+      [left; intros x f [<- | Hx]; [discriminate | auto]
+      | right; eexists (_ :: pre), post, f; split; [rewrite Eq; reflexivity | intros x f' [<- | Hx]; [discriminate | auto]]]).
+    right. exists [], r, failed. split; [reflexivity | intros x f' []].
 Qed.
 
 Lemma never_panics : forall evs, valid evs = true -> exists outs st, run init evs = (outs, Some st).
 Proof.
-  intros evs V. destruct (split_first_end evs) as [N | [pre [post [Eq _]]]].
+  intros evs V. destruct (split_first_end evs) as [N | [pre [post [f [Eq _]]]]].
   - destruct (no_end_lemma evs init) as [os [st [R _]]]; auto; [constructor |]. eauto.
-  - subst. destruct (close_lemma pre post init) as [os [st [R _]]]; auto; [constructor |]. eauto.
+  - subst. destruct (close_lemma pre post f init) as [os [st [R _]]]; auto; [constructor |]. eauto.
 Qed.
 
 (* a send on a closed channel is what would happen if notify were called after the end *)
-Lemma notify_after_close_panics :
-  fst (run init [Subscribe 1 2; WatchStart; EndWatch; Notify [(1%N, [2%N])]]) = [OWatch false] /\
-  snd (run init [Subscribe 1 2; WatchStart; EndWatch; Notify [(1%N, [2%N])]]) = None.
-Proof. split; reflexivity. Qed.
+Lemma notify_after_close_panics : forall f,
+  fst (run init [Subscribe 1 2; WatchStart; EndWatch f; Notify [(1%N, [2%N])]]) = [OWatch false; OEnd f] /\
+  snd (run init [Subscribe 1 2; WatchStart; EndWatch f; Notify [(1%N, [2%N])]]) = None.
+Proof. intros f. split; reflexivity. Qed.
 
 (* ------------------------------------------------------------------ single events, exhaustively *)
-Definition single_trace (mask c ifc : N) : list event :=
-  [Subscribe 1 mask; WatchStart; Notify [(ifc, [c])]; Drain 0 9; EndWatch; Drain 0 9].
+Definition single_trace (mask c ifc : N) (f : bool) : list event :=
+  [Subscribe 1 mask; WatchStart; Notify [(ifc, [c])]; Drain 0 9; EndWatch f; Drain 0 9].
 
-Definition single_expected (mask c ifc : N) : list out :=
+Definition single_expected (mask c ifc : N) (f : bool) : list out :=
   [OWatch false;
    ODrain (if N.eqb ifc 1 && negb (N.eqb (N.land mask c) 0) then [c] else []) false;
+   OEnd f;
    ODrain [] true].
 
 Definition out_eqb (a b : out) : bool :=
   match a, b with
   | OWatch p, OWatch q => Bool.eqb p q
   | ODrain v c, ODrain v' c' => (if list_eq_dec N.eq_dec v v' then true else false) && Bool.eqb c c'
+  | OEnd p, OEnd q => Bool.eqb p q
   | _, _ => false
   end.
 
 Lemma out_eqb_eq : forall a b, out_eqb a b = true -> a = b.
 Proof.
-  intros [p | v c] [q | v' c']; cbn; try discriminate.
+  intros [p | v c | p] [q | v' c' | q]; cbn; try discriminate.
   - intros H. apply Bool.eqb_prop in H. congruence.
   - destruct (list_eq_dec N.eq_dec v v'); cbn; [| discriminate]. intros H. apply Bool.eqb_prop in H. congruence.
+  - intros H. apply Bool.eqb_prop in H. congruence.
 Qed.
 
 Fixpoint outs_eqb (a b : list out) : bool :=
@@ -629,8 +637,8 @@ Definition masks127 : list N := map N.of_nat (seq 1 127).
 
 Lemma single_event_table :
   forallb (fun mask => forallb (fun c => forallb (fun ifc =>
-    outs_eqb (fst (run init (single_trace mask c ifc))) (single_expected mask c ifc))
-    [1%N; 2%N]) link_states) masks127 = true.
+    forallb (fun f => outs_eqb (fst (run init (single_trace mask c ifc f))) (single_expected mask c ifc f))
+    [false; true]) [1%N; 2%N]) link_states) masks127 = true.
 Proof. vm_compute. reflexivity. Qed.
 
 Lemma in_masks127 : forall m, (1 <= m <= 127)%N -> In m masks127.
@@ -639,15 +647,16 @@ Proof.
   apply in_seq. lia.
 Qed.
 
-Lemma single_event : forall mask c ifc,
+Lemma single_event : forall mask c ifc f,
   (1 <= mask <= 127)%N -> In c [1; 2; 4; 8; 16; 32; 64]%N -> In ifc [1%N; 2%N] ->
-  fst (run init (single_trace mask c ifc)) = single_expected mask c ifc.
+  fst (run init (single_trace mask c ifc f)) = single_expected mask c ifc f.
 Proof.
-  intros mask c ifc Hm Hc Hi.
+  intros mask c ifc f Hm Hc Hi.
   pose proof single_event_table as T. rewrite forallb_forall in T.
   specialize (T mask (in_masks127 _ Hm)). rewrite forallb_forall in T.
   rewrite <- link_states_literal in Hc. specialize (T c Hc). rewrite forallb_forall in T.
-  specialize (T ifc Hi). apply outs_eqb_eq. exact T.
+  specialize (T ifc Hi). rewrite forallb_forall in T.
+  apply outs_eqb_eq. apply T. destruct f; cbn; auto.
 Qed.
 
 (* Watch twice *)
